@@ -9,6 +9,13 @@ Per history (one metric in its own fresh CollectorRegistry):
     rejected shapes raise ValueError and change nothing; positional / keyword / non-string label values that stringify
     equally address one child; remove/clear delete exactly the addressed children, which restart from zero.
     -> ctx.fail("C01:<class>", …) with the history shrunk by lib.shrink_list.
+  * "unusual but legal Python types": a label value may be an instance of a `str` SUBCLASS whose `__str__`/`__format__`/
+    `__repr__` differ from its character data (str-mixin Enum member, masking string, tagged string) — tagged value
+    ['u', kind, data].  By the property ("values that stringify equally address the same child") and by `labels()` /
+    `remove()` of the unchanged code it addresses the child named str(value), NOT the child named by its character data;
+    the reference does exactly that (`str(py_of(v))`), the model receives the str() text (as for floats and sequences), and
+    the observation reads the CHARACTER DATA of whatever string object a collected sample carries (str(x) of a leaked
+    subclass instance would hide it).
   * T2: the same history goes to the driver (`c01 run …`); the model's observation after every step is compared
     verbatim with the real one, and the spec's observation (second reply field) with the model's.
 """
@@ -40,7 +47,51 @@ def py_of(v):
     if t == 'f': return lib.from_bits(int(v[1]))
     if t == 't': return tuple(py_of(x) for x in v[1])
     if t == 'l': return [py_of(x) for x in v[1]]
+    if t == 'u': return make_sub(v[1], v[2])
     raise ValueError(v)
+
+
+class MaskedStr(str):
+    """a secret-masking string: prints as stars, is the real text"""
+
+    def __str__(self):
+        return '***'
+
+    def __format__(self, fmt):
+        return '***'
+
+    def __repr__(self):
+        return '<masked>'
+
+
+class TaggedStr(str):
+    """a markup string: str() / format() put a tag around the data"""
+
+    def __str__(self):
+        return 'tag:' + str.__str__(self)
+
+    def __format__(self, fmt):
+        return '<b>' + str.__str__(self) + '</b>'
+
+    def __repr__(self):
+        return 'TaggedStr()'
+
+
+def make_sub(kind, data):
+    """['u', kind, data]: an instance of a str subclass with character data `data`"""
+    if kind == 'enum':
+        import enum
+        return enum.Enum('Color', {'MEMBER': data}, type=str).MEMBER      # str(x) == format(x) == 'Color.MEMBER', x == data
+    if kind == 'mask':
+        return MaskedStr(data)
+    if kind == 'tag':
+        return TaggedStr(data)
+    raise ValueError(kind)
+
+
+def chardata(x):
+    """what a collected sample carries, as text: the character data of a str of any subclass (never its __str__), str(x) else"""
+    return str.__str__(x) if isinstance(x, str) else str(x)
 
 
 def F(x):
@@ -60,6 +111,7 @@ def wire_pyval(v):
     if t == 'n': return 'N'
     if t == 'f': return 'f' + lib.hx(str(py_of(v)))
     if t in ('t', 'l'): return t + lib.hx(str(py_of(v)))      # a sequence is ONE label value: its str() text
+    if t == 'u': return 's' + lib.hx(str(py_of(v)))           # a str-subclass instance is stringified like any other object
     raise ValueError(v)
 
 
@@ -117,7 +169,7 @@ def observe(reg):
         for s in fam.samples:
             if s.name.endswith('_created'):
                 continue
-            out.append((s.name, tuple(sorted((str(k), str(v)) for k, v in s.labels.items())), lib.bits_of(s.value)))
+            out.append((chardata(s.name), tuple(sorted((chardata(k), chardata(v)) for k, v in s.labels.items())), lib.bits_of(s.value)))
     seq = [(n, l) for n, l, _ in out]
     out.sort()
     return out, seq
@@ -551,6 +603,9 @@ LABEL_VALUES = [['s', 'a'], ['s', 'b'], ['s', ''], ['s', '1'], ['i', 1], ['s', '
                 ['s', 'None'], ['n'], ['s', '1.0'], F(1.0), F(0.1), ['s', '0.1'], ['i', 0], ['i', -5], ['s', '-5'],
                 ['i', 10 ** 20], ['s', 'é ü'], ['s', 'x\ny'], ['s', 'a"b\\'], F(INF), ['s', 'inf'], F(float('nan')),
                 ['s', 'nan'], F(1e16), F(-0.0), ['s', '温'], ['s', 'a'], ['s', 'b'], ['s', 'c']]
+# str-subclass label values (C01's own run only) and the plain strings they collide with: str(x) / their character data
+SUB_VALUES = [['u', 'enum', 'a'], ['u', 'mask', 'a'], ['u', 'tag', 'b'], ['u', 'enum', 'red'], ['u', 'mask', 'x\ny'], ['u', 'tag', ''],
+              ['u', 'enum', 'Color.MEMBER'], ['s', 'Color.MEMBER'], ['s', '***'], ['s', 'tag:b'], ['s', 'red'], ['s', 'tag:']]
 BOUND_POOL = [-10.0, -2.5, -1.0, -0.0, 0.0, 5e-324, 0.005, 0.1, 0.5, 1.0, 2.5, 10.0, 1e6, 1e16, 2.0 ** 53, 1e17, 1e22, 1e300,
               -(2.0 ** 53), 2.0 ** 53, 1e17]
 
@@ -611,7 +666,7 @@ def spec_bounds(spec):
     return [float(py_of(b)) for b in spec['buckets']] or None
 
 
-def gen_args(rng, spec, live):
+def gen_args(rng, spec, live, extended=False):
     """a labels() argument pair (args, kws); mostly well-formed, mostly addressing a few children"""
     names = spec['labelnames']
     n = len(names)
@@ -620,6 +675,8 @@ def gen_args(rng, spec, live):
         vals = list(rng.choice(live))             # re-address an existing child (by the values used before)
     else:
         vals = [rng.choice(LABEL_VALUES[-6:] if rng.random() < 0.6 else LABEL_VALUES) for _ in range(n)]
+    if extended and rng.random() < 0.15:
+        vals = [rng.choice(SUB_VALUES) if rng.random() < 0.7 else v for v in vals]      # str-subclass instances as label values
     if rng.random() < 0.12:
         vals = [rng.choice(SEQ_VALUES) if rng.random() < 0.6 else v for v in vals]     # tuples / lists as label VALUES
     if rng.random() < 0.5:
@@ -664,6 +721,11 @@ def restring(rng, v):
         if str(float(s)) == s: alts.append(F(float(s)))
     except ValueError:
         pass
+    if v[0] == 'u':
+        alts += [v, v]
+    for u in SUB_VALUES:                       # str-subclass instances with the same str() (only where one is in play already)
+        if u[0] == 'u' and (v[0] == 'u' or s in ('Color.MEMBER', '***')) and str(py_of(u)) == s:
+            alts.append(u)
     return rng.choice(alts)
 
 
@@ -735,7 +797,7 @@ def gen_history(rng, spec, length, extended=False):
             if live and rng.random() < 0.7:
                 vals = [restring(rng, v) for v in rng.choice(live)]
             else:
-                vals = [rng.choice(LABEL_VALUES) for _ in range(n)]
+                vals = [rng.choice(LABEL_VALUES + SUB_VALUES if extended else LABEL_VALUES) for _ in range(n)]
             if rng.random() < 0.08:
                 vals = vals + [['s', 'q']] if rng.random() < 0.5 else vals[:-1]
             elif rng.random() < 0.06:
@@ -746,7 +808,7 @@ def gen_history(rng, spec, length, extended=False):
             if (n == 0 and rng.random() < 0.9) or (n > 0 and rng.random() < 0.06):
                 ops.append(['call', None, None, act, arg])
             else:
-                args, kws = gen_args(rng, spec, live)
+                args, kws = gen_args(rng, spec, live, extended)
                 if len(args) == n and not kws:
                     live.append(args)
                     live[:] = live[-5:]
@@ -913,6 +975,21 @@ CORPUS = [
       ['call', [['s', 'a']], [], 'observe', F(1e17)]]),
     ({'kind': 'summary', 'name': 'm', 'labelnames': [], 'legacy': True},
      [['call', None, None, 'observe', ['i', 10 ** 17 + 3]], ['call', None, None, 'observe', ['i', 10 ** 22 + 7]]]),
+    # str-subclass instances as label values (str-mixin Enum member, masking string, tagged string): the child addressed is
+    # the one named str(value) — positionally, by keyword and in remove() — never the one named by the character data
+    ({'kind': 'counter', 'name': 'm', 'labelnames': ['color'], 'legacy': True},
+     [['call', [['u', 'enum', 'red']], [], 'inc', F(1.0)], ['call', [['s', 'Color.MEMBER']], [], 'inc', F(2.0)],
+      ['call', [['s', 'red']], [], 'inc', F(4.0)], ['call', [], [['color', ['u', 'enum', 'red']]], 'inc', F(8.0)],
+      ['remove', [['u', 'enum', 'red']]], ['call', [['u', 'enum', 'red']], [], 'touch', None], ['remove', [['s', 'red']]],
+      ['call', [['u', 'enum', 'blue']], [], 'inc', F(16.0)]]),
+    ({'kind': 'gauge', 'name': 'm', 'labelnames': ['kind', 'where'], 'legacy': True},
+     [['call', [['i', 1], ['u', 'tag', 'attic']], [], 'inc', F(1.0)], ['call', [], [['where', ['s', 'attic']], ['kind', ['u', 'mask', '1']]], 'inc', F(2.0)],
+      ['call', [['s', '***'], ['s', 'attic']], [], 'inc', F(4.0)], ['call', [['s', '1'], ['s', 'tag:attic']], [], 'inc', F(8.0)],
+      ['remove', [['i', 1], ['u', 'tag', 'attic']]], ['call', [['s', '1'], ['u', 'tag', 'attic']], [], 'inc', F(16.0)],
+      ['remove', [['u', 'mask', 'zz'], ['s', 'attic']]], ['call', [['u', 'mask', ''], ['u', 'enum', 'attic']], [], 'touch', None]]),
+    ({'kind': 'histogram', 'name': 'm', 'labelnames': ['l'], 'legacy': False, 'buckets': [F(1.0)]},
+     [['call', [['u', 'mask', 'x\ny']], [], 'observe', F(0.5)], ['call', [['s', 'x\ny']], [], 'observe', F(2.0)],
+      ['call', [], [['l', ['u', 'tag', '']]], 'observe', F(1.0)], ['remove', [['s', 'tag:']]], ['call', [['s', '***']], [], 'observe', F(1.0)]]),
     # enum / info
     ({'kind': 'enum', 'name': 'm', 'labelnames': ['l'], 'legacy': True, 'states': ['a', 'b']},
      [['call', [['s', 'x']], [], 'state', 'b'], ['call', [['s', 'x']], [], 'state', 'zz'], ['call', None, None, 'state', 'a']]),
@@ -1047,7 +1124,7 @@ def shrink_div(ctx, spec, ops):
 def run(ctx):
     ctx.rule = ('one history = one metric (six types x 0-3 labels x legacy/UTF-8 label names x arbitrary sorted buckets incl. '
                 'negative/zero/duplicate bounds x enum states) in a fresh CollectorRegistry and a list of calls '
-                '(inc/dec/set/observe/reset/info/state addressed directly, positionally or by keyword, labels() alone, '
+                '(inc/dec/set/observe/reset/info/state addressed directly, positionally or by keyword (label values: str, int, bool, None, float, tuple/list, str-subclass instances whose __str__ differs from their data), labels() alone, '
                 'remove, clear; amounts ordinary, >2^53, tiny, negative, +-Inf, NaN, ints (also ints that are no doubles: 2^53+1, 10^17+1, …, '
                 'before and after reset()), bools, on a bound and its neighbours); exhaustive = every word of length 3 (quick) / 4 (thorough) over a 13-call alphabet per type on a '
                 'two-label metric and of length 3 over a 9-call alphabet on the unlabelled metric; random to length 200; '
